@@ -74,9 +74,9 @@ CLAIMED = {
             'time), boundary and random minute-level instants, with a patched clock and fake bucket',
             'Kernel-checked: the lookup never raises and returns a recording iff it matches and s <= t <= e (explicit end) or '
             's <= t (default end, nothing newer than now), for every window alignment, choice stream and shuffle; none outside '
-            'holds for any day enumeration; the pre-fix enumeration misses the 23:00->01:00 / 00:30 witness.',
+            'holds for any day enumeration; the pre-fix enumeration misses the 23:00->01:00 / 00:30 witness; the sub-second instants the harness also uses (second t -> t*10^6 + mu(t) microseconds) keep every comparison and every calendar day of the model\'s seconds (C16_subsecond_order, C16_subsecond_day).',
             'Trusted: strftime(%Y%m%d) is a parameter (injective, slash-free; passed as a table by the harness); datetime/'
-            'timedelta as minutes/days; UTC process clock; create and save at the same instant.', 'DESIGN.md 6/C16'),
+            'timedelta as seconds/days; UTC process clock; create and save at the same instant.', 'DESIGN.md 6/C16'),
     'C10': ('Lean 4 theorems over models of the three lookup algorithms plus find_matching_recording_ids, reusing the C14 '
             'matcher model; tied to /repo by saving the same 0-12 recordings on the real in-memory, file and S3 (fake bucket, '
             'prefixes \'\', p, xmetadata, a/b, foreign objects) cassettes and running ~6 lookups each (filters from C14\'s '
@@ -117,9 +117,9 @@ CLAIMED = {
             'Kernel-checked: categories are reported sorted (explicit) or in first-occurrence order (lookup); played ids are a '
             'permutation of the given ids, each in its own category\'s group; each comparison is that category\'s tuning applied '
             'to that recording alone; a failing tuner changes only its own entry; lookup-driven runs play exactly the lookup of '
-            'category k; any interleaving of next calls yields per-category prefixes of the sequential runs.',
+            'category k; a run with explicit ids is the same run under any lookup properties and cassette content (C19_explicit_ignores_lookup); any interleaving of next calls yields per-category prefixes of the sequential runs.',
             'Trusted: category names are mapped to ranks in Python string order; fake_s3 stands in for S3; lookup-driven runs '
-            'are compared per category as sets with no limit set; the tie runs in-process mode only.', 'DESIGN.md 6/C19'),
+            'are compared per category as sets with no limit set; the tie runs in-process mode only; the studio is an immutable value in the model (the check calls play() twice on the real object).', 'DESIGN.md 6/C19'),
     'C01': ('Lean 4 theorem by induction over interaction-tree programs with two stability lemmas (an input key keeps the '
             'world\'s envelope, an output-result key is never rewritten): replaying the final data of a record run reproduces '
             'every call outcome, runs no body and captures the recorded outputs one for one; lifted to the @operation / play() '
@@ -156,14 +156,14 @@ CLAIMED = {
             'all ordinals. The "difference at exactly the affected entries" sentence is decided by the oracle from the '
             'per-entry theorems plus key injectivity (no separate theorem).',
             'Trusted: Lean kernel; recorder model tied by differential execution; known finding K4 (arguments stored by '
-            'reference) excluded: values are immutable in the model.', 'DESIGN.md 6/C03'),
+            'reference) excluded: values are immutable in the model; known finding K10 (a replay started inside a recorded operation restarts the output numbering) is outside the model: no replay is started from inside a recorded operation.', 'DESIGN.md 6/C03'),
     'C17': ('Lean 4 theorems: the finally-block of the recording scope computes exactly keep = forced or rate >= 1 or draw <= '
             'rate and consumes one draw iff that last test is reached; discard wins; a class ignoring forcing is never forced '
             '(invariant over all programs); content independence; the S3 size-based rule is the same function; tied to /repo by '
             'the exhaustive decision table (incl. draws equal to the rate) and seeded histories on the recorder\'s own Random(seed)',
             'Kernel-checked for every program and recorder state: skipped classes never touch the cassette; discarded => abort; '
             'otherwise save iff forced (and not ignored) or rate >= 1 or the next draw <= rate; exactly one draw iff needed; '
-            'forcing never leaks into the next run; switching recording off mid-operation wins like a discard and touches no draw. Kept fraction, counting form (induction on the history): over any history of '
+            'forcing never leaks into the next run; switching recording off mid-operation wins like a discard and touches no draw; enable_recording / disable_recording never touch the draw stream (C17_switch_keeps_stream). Kept fraction, counting form (induction on the history): over any history of '
             'N recorded, undiscarded, unforced operations of a class with rate < 1 exactly N draws are consumed in order and the '
             'number kept equals the number of those draws within the rate. That this fraction tends to the rate for independent '
             'uniform draws (law of large numbers) is NOT formalised: partial; the tie compares kept decisions with the seeded '
